@@ -31,7 +31,12 @@ module- or class-level literal constants used by name, `list(..)` / `tuple(..)` 
 `list / tuple / set / frozenset` snapshots for membership tests, extra parameters with a literal default (bound to
 that default; a branch on a constant is pruned), private helper methods that are not themselves modelled (inlined
 at the call: statement helpers without `return <value>`, expression helpers consisting of one `return <expr>`), new
-methods nobody in the translated set calls.  A method that cannot be translated does not drag its callers along:
+methods nobody in the translated set calls; `if not <bool local>: A else: B` read as `if <bool local>: B else: A` (an
+early `if not released: return released` instead of nesting the rest under `if released:`); the release loop spelled
+`while self.release_resource(ctx, rid): if rid not in ctx.acquired_resources: break`; the sort key of the waiting list
+as `lambda x: x[1]`, `lambda x: x[-1]`, `itemgetter(1)` / `operator.itemgetter(1)` (only when the name really is the
+import from `operator` and the module does not rebind it) or a module-level name bound once to one of these,
+`reverse=` a literal or a module-level literal constant.  A method that cannot be translated does not drag its callers along:
 they keep calling `Tr.<callee>`, so only the callee's agreement theorem fails.
 Natural-number fields (`hold_count`) use truncated subtraction: Python's `-1` is not representable and is only ever
 produced where the next statement resets the field.
@@ -124,6 +129,33 @@ class Tr:
                     if v is None or isinstance(v, (bool, int)):
                         self.consts[tgt] = v
         self.inline_depth = 0
+        # names imported from `operator` (for itemgetter) and module-level names bound ONCE to a lambda / a call
+        self.imported = {}
+        self.fun_consts = {}
+        for src in (types_src, ctrl_src):
+            tree = ast.parse(src)
+            assigned = {}
+            for n in ast.walk(tree):
+                if isinstance(n, ast.ImportFrom) and n.module == "operator" and n.level == 0:
+                    for al in n.names:
+                        self.imported[al.asname or al.name] = f"operator.{al.name}"
+                elif isinstance(n, ast.Import):
+                    for al in n.names:
+                        if al.name == "operator":
+                            self.imported[al.asname or "operator"] = "operator"
+                for tg in (n.targets if isinstance(n, ast.Assign) else [n.target] if isinstance(n, (ast.AnnAssign, ast.AugAssign)) else []):
+                    for nm in ast.walk(tg):
+                        if isinstance(nm, ast.Name):
+                            assigned[nm.id] = assigned.get(nm.id, 0) + 1
+                if isinstance(n, (ast.FunctionDef, ast.ClassDef)):
+                    assigned[n.name] = assigned.get(n.name, 0) + 1
+            for n in tree.body:
+                if isinstance(n, ast.Assign) and len(n.targets) == 1 and isinstance(n.targets[0], ast.Name) \
+                        and isinstance(n.value, (ast.Lambda, ast.Call)) and assigned.get(n.targets[0].id) == 1:
+                    self.fun_consts[n.targets[0].id] = n.value
+            for nm in list(self.imported):          # an imported name that the module also assigns / defines is not the import
+                if nm in assigned:
+                    del self.imported[nm]
 
     # ------------------------------------------------------------------------------------------ helpers
     @staticmethod
@@ -136,6 +168,35 @@ class Tr:
                 isinstance(e, ast.Attribute) and is_name(e.value, "LockResult") and e.attr in LOCKRESULT for e in n.elts):
             return [LOCKRESULT[e.attr] for e in n.elts]
         return None
+
+    def is_second_item_key(self, key, env, depth=0):
+        """is `key` a function that maps a pair to its second component: `lambda x: x[1]`, `lambda x: x[-1]` (pairs),
+        `itemgetter(1)` / `operator.itemgetter(1)`, a lambda that unpacks nothing else, or a module- / class-level name
+        bound to one of these"""
+        if key is None or depth > 3:
+            return False
+        if isinstance(key, ast.Lambda):
+            a = key.args
+            if len(a.args) != 1 or a.vararg or a.kwarg or a.kwonlyargs or a.defaults or a.posonlyargs:
+                return False
+            b = key.body
+            return (isinstance(b, ast.Subscript) and is_name(b.value, a.args[0].arg)
+                    and isinstance(b.slice, ast.Constant) and b.slice.value in (1, -1) and not isinstance(b.slice.value, bool))
+        if isinstance(key, ast.Call) and not key.keywords and len(key.args) == 1 \
+                and isinstance(key.args[0], ast.Constant) and key.args[0].value == 1 and not isinstance(key.args[0].value, bool):
+            f = key.func
+            if is_name(f, "itemgetter") and self.imported.get("itemgetter") == "operator.itemgetter":
+                return True
+            if isinstance(f, ast.Attribute) and f.attr == "itemgetter" and isinstance(f.value, ast.Name) \
+                    and self.imported.get(f.value.id) == "operator":
+                return True
+            return False
+        if isinstance(key, ast.Name) and key.id not in env["locals"] and key.id in self.fun_consts:
+            return self.is_second_item_key(self.fun_consts[key.id], env, depth + 1)
+        if isinstance(key, ast.Attribute) and isinstance(key.value, ast.Name) and (key.value.id == "self" or key.value.id in self.classes) \
+                and key.attr in self.fun_consts:
+            return False        # a class attribute holding a function is bound as a method when read through `self`
+        return False
 
     def coerce(self, code, t, want, node):
         if t == want:
@@ -432,6 +493,13 @@ class Tr:
                 var = env2["registered"][key]
                 return (f"{pad}match s.locks {key} with\n{pad}| none =>\n{body}\n{pad}| some {var} =>\n"
                         + self.block(rest, env2, ind + 1, fin))
+            # `if not <bool local>: A else: B` is `if <bool local>: B else: A` (an early `if not released: return
+            # released` instead of nesting the rest under `if released:`)
+            if isinstance(t, ast.UnaryOp) and isinstance(t.op, ast.Not) and isinstance(t.operand, ast.Name) \
+                    and env["locals"].get(t.operand.id, (None, None))[1] == "bool":
+                sw = ast.copy_location(ast.If(test=t.operand, body=list(st.orelse) or [ast.copy_location(ast.Pass(), st)],
+                                              orelse=list(st.body)), st)
+                return self.block([sw] + rest, env, ind, fin)
             c = self.truth(*self.ex(t, env), t)
             if c == "true":                       # a branch on a constant (a new parameter at its default)
                 return self.block(st.body + rest, env, ind, fin)
@@ -590,10 +658,11 @@ class Tr:
         if m == "sort" and k == "lock" and is_attr(recv, "self", "waiting_list") and result_name is None:
             kws = {kw.arg: kw.value for kw in call.keywords}
             key = kws.get("key")
-            ok = (not call.args and set(kws) == {"key", "reverse"} and isinstance(kws["reverse"], ast.Constant)
-                  and kws["reverse"].value is True and isinstance(key, ast.Lambda) and len(key.args.args) == 1
-                  and isinstance(key.body, ast.Subscript) and is_name(key.body.value, key.args.args[0].arg)
-                  and isinstance(key.body.slice, ast.Constant) and key.body.slice.value == 1)
+            rev = kws.get("reverse")
+            if isinstance(rev, ast.Name) and rev.id not in env["locals"] and rev.id in self.consts:
+                rev = ast.Constant(value=self.consts[rev.id])
+            ok = (not call.args and set(kws) == {"key", "reverse"} and isinstance(rev, ast.Constant)
+                  and rev.value is True and self.is_second_item_key(key, env))
             if not ok:
                 bad(st, "sort other than sort(key=lambda x: x[1], reverse=True)")
             return f"{pad}let l : Lock := {{ l with waiting := sortDesc l.waiting }}\n" + self.block(rest, env, ind, fin)
@@ -778,7 +847,25 @@ class Tr:
                   and env["locals"].get(call.args[0].id, (0, 0))[1] == "ctx"
                   and isinstance(member, ast.Compare) and len(member.ops) == 1 and isinstance(member.ops[0], ast.In)
                   and is_name(member.left, call.args[1].id)
-                  and ast.unparse(member.comparators[0]) == f"{call.args[0].id}.acquired_resources")
+                  and self.strip_snapshot(member.comparators[0]) == f"{call.args[0].id}.acquired_resources")
+        if not ok:
+            # the same loop spelled `while self.release_resource(ctx, rid): if rid not in ctx.acquired_resources: break`
+            body = [b for b in st.body if not isinstance(b, ast.Pass)
+                    and not (isinstance(b, ast.Expr) and isinstance(b.value, ast.Constant))]
+            call = t
+            ok = (env["kind"] == "ctrl" and not st.orelse and len(body) == 1 and isinstance(body[0], ast.If)
+                  and not body[0].orelse and len(body[0].body) == 1 and isinstance(body[0].body[0], ast.Break)
+                  and isinstance(call, ast.Call) and is_attr(call.func, "self", "release_resource") and not call.keywords
+                  and len(call.args) == 2 and isinstance(call.args[0], ast.Name) and isinstance(call.args[1], ast.Name)
+                  and env["locals"].get(call.args[0].id, (0, 0))[1] == "ctx")
+            if ok:
+                g = body[0].test
+                if isinstance(g, ast.UnaryOp) and isinstance(g.op, ast.Not) and isinstance(g.operand, ast.Compare) \
+                        and len(g.operand.ops) == 1 and isinstance(g.operand.ops[0], ast.In):
+                    g = ast.Compare(left=g.operand.left, ops=[ast.NotIn()], comparators=g.operand.comparators)
+                ok = (isinstance(g, ast.Compare) and len(g.ops) == 1 and isinstance(g.ops[0], ast.NotIn)
+                      and is_name(g.left, call.args[1].id)
+                      and self.strip_snapshot(g.comparators[0]) == f"{call.args[0].id}.acquired_resources")
         if not ok:
             bad(st, "while loop other than `while self.release_resource(ctx, rid) and rid in ctx.acquired_resources: pass`")
         self.need("release_resource", st)
